@@ -27,7 +27,7 @@ BLOCK = 10
 STREAM_ORDER = ['scen', 'chart', 'cfg']
 RULE = ('a generated probe chart (half of them also fire events with notify()) and a generated feature file (3-6 scenarios per execute_bdd call): each scenario is a history of predefined '
         'given/when steps - send event (plain, inline parameter, parameter table), wait, do nothing, repeat "...", reproduce "..." -, a given-step now and then among the when-steps of a block, followed by '
-        'assertions known to be true and one assertion under test drawn true or false alike from every predefined then-step in the documented '
+        'assertions known to be true and one assertion under test drawn true or false alike from every predefined then-step in the documented (parameter values include falsy ones: 0, False, None, empty string and list) '
         'spelling. The feature is run in-process through execute_bdd with behave JSON formatter; every scenario is evaluated independently on a '
         'plain Interpreter (queue / advance / execute() per primitive step; the monitored block is the macro steps of the when-steps since the '
         'last then-step) giving the expected passed/failed status per then-step; the interpreter behave used is captured through '
@@ -206,6 +206,13 @@ def gen_assertion(st, sp, plain, want_true):
             if st.flag(1, 2):
                 return ['event %s is fired with nosuch=1' % n], False, 'fired_with_unknown_parameter'
             return ['event %s is fired' % n, '  | parameter | value |', '  | nosuch | 1 |'], False, 'fired_with_unknown_parameter_table'
+        if sent and not want_true and st.flag(1, 4):
+            # the event was fired, but not with this (falsy) value of its parameter
+            n, data = st.pick(sent)
+            val = st.pick(['0', 'False', 'None', "''", '[]'])
+            if st.flag(1, 2):
+                return ['event %s is fired with uid=%s' % (n, val)], False, 'fired_with_falsy_value'
+            return ['event %s is fired' % n, '  | parameter | value |', '  | uid | %s |' % val], False, 'fired_with_falsy_value_table'
         if sent and (want_true or st.flag(1, 2)):
             n, data = st.pick(sent)
             uid = data['uid'] if want_true else data['uid'] + 5000
